@@ -10,7 +10,7 @@ cargo test --offline --test demo >"$BUG/demo_without.log" 2>&1; W=$?
 git apply "$BUG/patch.diff" || { echo "patch does not apply"; exit 2; }
 cargo build --offline >/dev/null 2>&1; B1=$?
 cargo build --offline --features verif >/dev/null 2>&1; B2=$?
-cargo test --offline --lib 2>&1 | grep -E "^test result" >"$BUG/suite.log"; 
+timeout 900 cargo test --offline --lib 2>&1 | grep -E "^test result" >"$BUG/suite.log";
 SUITE=$(grep -c "41 passed; 0 failed" "$BUG/suite.log")
 timeout 300 cargo test --offline --test demo >"$BUG/demo_with.log" 2>&1; P=$?
 git checkout -q -- . ; rm -f tests/demo.rs
